@@ -312,6 +312,7 @@ def _e2e_worker(payload):
             asyncio.open_connection = fake_open
             asyncio.sleep = fast_sleep
             log = []
+            restore = []
             try:
                 sts = {}
                 for w in (1, 2):
@@ -319,11 +320,17 @@ def _e2e_worker(payload):
                     await orig_sleep(0.01)
                 pump_task = None
                 if eager:
-                    import time as _time
-                    import sqlalchemy as _sa
+                    import aiosqlite as _aiosqlite
 
-                    for w in (1, 2):
-                        _sa.event.listen(sts[w].db.sync_engine, "commit", lambda conn: _time.sleep(0.1))
+                    # (every COMMIT of the driver's connections takes a tenth of a second; the loop keeps running meanwhile)
+                    orig_commit = _aiosqlite.Connection.commit
+
+                    async def slow_commit(self_):
+                        await orig_sleep(0.1)
+                        return await orig_commit(self_)
+
+                    _aiosqlite.Connection.commit = slow_commit
+                    restore.append(lambda: setattr(_aiosqlite.Connection, "commit", orig_commit))
 
                     async def pump():
                         while True:
@@ -432,6 +439,8 @@ def _e2e_worker(payload):
             finally:
                 asyncio.open_connection = orig_open
                 asyncio.sleep = orig_sleep
+                for fn in restore:
+                    fn()
 
     async def main():
         return [await one(c) for c in chunkings] + [await one(c, eager=True) for c in chunkings[:1]]
